@@ -65,6 +65,10 @@ def evaluator(rec):
     q = [tuple(c) for c in rec['qubits']]
     s = [tuple(c) for c in rec['stab_coords']]
     n = rec['n']
+    if rec.get('half_integer_coordinates'):
+        if q != [tuple(c) for c in rec['given_qubits_x2']] or s != [tuple(c) for c in rec['given_stabs_x2']]:
+            out.append(('coordinates', 'the code reports qubit/stabilizer coordinates %s... for the half-integer coordinates it was given (x2: %s...)'
+                        % (rec['qubits'][:3], rec['given_qubits_x2'][:3])))
     if len(set(q)) != len(q):
         out.append(('distinct_qubits', 'duplicate qubit coordinate'))
     if len(set(s)) != len(s):
@@ -155,6 +159,12 @@ def run(rep, work, tier, seed, only=None):
                                   {'instance': key, 'clause': clause, 'detail': detail})
                 continue
             rec['_key'] = key
+            if rec.get('half_integer_coordinates') and (rec['qubits'] != rec['given_qubits_x2'] or rec['stab_coords'] != rec['given_stabs_x2']):
+                rep.violation(dict(key, site='table', clause='coordinates'),
+                              '%s: a user-defined code with half-integer coordinates reports qubit/stabilizer coordinates (x2) %s..., it was given %s...'
+                              % (rec['tag'], rec['qubits'][:3], rec['given_qubits_x2'][:3]),
+                              {'instance': key, 'reported_x2': rec['qubits'], 'given_x2': rec['given_qubits_x2'], 'user_code': True})
+                continue
             cc.report_hist_diff(rep, rec, key)
             rep.count('user' if rec.get('user') else rec['cls'])
             rep.case(key, rec.get('n', 0) >= 2, sample={'instance': key, 'n': rec.get('n'), 'rows': len(rec.get('H', []))}
